@@ -46,6 +46,7 @@ StrictStep ==
                  [] e.act = "call"    -> WCall(e.thr) /\ clog'[Len(clog')] = EntryOf(e.e)
                  [] e.act = "release" -> WRelease(e.thr)
                  [] e.act = "put"     -> WPut(e.thr)
+                 [] e.act = "exit" -> WExit(e.thr)
                  [] OTHER -> FALSE
     /\ sem' = e.holder
     /\ Alive(wpc') = SetOf(e.alive)
